@@ -98,7 +98,7 @@ HARNESS = {
                          libs=["-lrapidcheck", "-lboost_timer", "-lpthread"], pre_includes=["mocktbb"]),
     "h_mpi": dict(src="h_mpi.cpp", cxx="clang++", flags=["-O1", "-g", "-fsanitize=undefined", "-fno-sanitize-recover=undefined"],
                   inc=MPI_INC, libs=["-lrapidcheck", "-ltbb", "-lboost_timer"] + MPI_LIBS),
-    "h_conc": dict(src="h_conc.cpp", cxx="clang++", flags=["-O1", "-g"] + SAN, libs=["-lrapidcheck", "-ltbb", "-lboost_timer"]),
+    "h_conc": dict(src="h_conc.cpp", extra_src=["h_conc_tu2.cpp"], cxx="clang++", flags=["-O1", "-g"] + SAN, libs=["-lrapidcheck", "-ltbb", "-lboost_timer"]),
     # uninstrumented builds for the valgrind-memcheck pass of C07 (uninitialised reads; there is no MSan-instrumented libstdc++ here)
     "h_exact_vg": dict(src="h_exact.cpp", cxx="clang++", flags=["-O1", "-g", "-gdwarf-4"], libs=["-lrapidcheck", "-ltbb", "-lboost_timer"]),
     "h_approx_vg": dict(src="h_approx.cpp", cxx="clang++", flags=["-O1", "-g", "-gdwarf-4"], libs=["-lrapidcheck", "-ltbb", "-lboost_timer"]),
@@ -149,7 +149,8 @@ def _build_harness(name):
     for p in spec.get("pre_includes", []):
         pre += ["-I", os.path.join(ENGINE, p)]
     cmd = [spec["cxx"]] + flags + pre + ["-I", inc, "-I", os.path.join(REPO, "include"), "-I", ENGINE] + \
-        spec.get("inc", []) + [os.path.join(ENGINE, spec["src"]), "-o", binp + ".tmp"] + spec["libs"]
+        spec.get("inc", []) + [os.path.join(ENGINE, spec["src"])] + [os.path.join(ENGINE, x) for x in spec.get("extra_src", [])] + \
+        ["-o", binp + ".tmp"] + spec["libs"]
     t0 = time.time()
     r = subprocess.run(cmd, stdout=subprocess.PIPE, stderr=subprocess.STDOUT, text=True)
     if r.returncode != 0:
